@@ -134,7 +134,7 @@ pub fn max_len_for(v: Variant, ctx: &Ctx) -> usize {
 }
 
 pub fn run_all(ctx: &Ctx) {
-    let max_ops = ctx.n(200, 1000) as usize;
+    let max_ops = ctx.sz(200, 1000) as usize;
     for v in VARIANTS {
         let max_len = max_len_for(v, ctx);
         ctx.prop(
